@@ -20,6 +20,7 @@
    The remaining pair (unauthenticated at n, authenticated at m) is not monotone for a plain
    reason, not a cryptographic one: the unauthenticated mode delivers the bytes of a cut
    chunk, the authenticated mode does not (unauth_then_auth_not_monotone below, n = m). *)
+From MLA Require Import Limit.
 From MLA Require Import Base Stream Blocks Writer Repair RepairSpec RepairPure
   RepairProofs2 RepairProofs5 RepairProofs6 EncLayer EncLayerProofs EncAuth EncAuthFs EncAuthC
   EncAuthTrunc EncWriter EncWriterProofs Inst Run ComposeRdOnly ComposeRepair.
@@ -30,6 +31,7 @@ Lemma prefix_app_inv_head {A} (x a b : list A) : prefix (x ++ a) (x ++ b) -> pre
 Proof. intros [r E]. rewrite <- app_assoc in E. apply app_inv_head in E. exists r. exact E. Qed.
 
 Section AuthMono.
+  Context {LIM : Limit}.
   Variables CHUNK TAG : N.
   Hypothesis HCHUNK : 0 < CHUNK.
   Hypothesis HTAG : 0 < TAG.
@@ -181,6 +183,7 @@ End AuthMono.
 
 (* ---------- the composition with the repair loop ---------- *)
 Section EncRepairMono.
+  Context {LIM : Limit}.
   Variable FNMAX CACHE : N.
   Hypothesis HFN : FNMAX < 2 ^ 64.
   Hypothesis HCACHE : 0 < CACHE.
@@ -244,13 +247,16 @@ Section EncRepairMono.
     exists es1 b1 es2 b2,
       fs_open (Cursor (takeN n (ew_out s))) 0 = (es1, Ok b1) /\
       fs_open (Cursor (takeN m (ew_out s))) 0 = (es2, Ok b2) /\
+    (* neither finalize failed with SerializationError (footers within the bincode limit) *)
+    (repair (FsEnc u1 (Cursor (takeN n (ew_out s)))) fuel1 es1 w_init <> Err EDeser ->
+     repair (FsEnc u2 (Cursor (takeN m (ew_out s)))) fuel2 es2 w_init <> Err EDeser ->
     exists st1 un1 out1 obl1 st2 un2 out2 obl2,
       repair (FsEnc u1 (Cursor (takeN n (ew_out s)))) fuel1 es1 w_init = Ok (st1, un1, out1) /\
       good_output out1 obl1 /\
       repair (FsEnc u2 (Cursor (takeN m (ew_out s)))) fuel2 es2 w_init = Ok (st2, un2, out2) /\
       good_output out2 obl2 /\
       ((forall name, prefix (content_of (files_of obl1) name) (content_of (files_of obl2) name)) \/
-       Forgery (takeN n (ew_out s)) plain).
+       Forgery (takeN n (ew_out s)) plain)).
   Proof.
     intros Hnm Hu Hf1 Hf2.
     pose proof (cut_big FNMAX CACHE HFN HCACHE T_START T_CONTENT T_EOA T_EOF Htags H H_len CHUNK TAG HCHUNK HTAG
@@ -261,12 +267,12 @@ Section EncRepairMono.
                   HCHUNK HTAG ks tagc Htagc bl trailer pieces Hpieces fuelw s Hw Hbig) as Hfu.
     destruct (fsenc_rd_refines CHUNK TAG HCHUNK ks tagc u1 _ (Hcb n)) as (I1 & HR1 & es1 & b1 & Ho1 & HI1).
     destruct (fsenc_rd_refines CHUNK TAG HCHUNK ks tagc u2 _ (Hcb m)) as (I2 & HR2 & es2 & b2 & Ho2 & HI2).
-    exists es1, b1, es2, b2. split; [exact Ho1|]. split; [exact Ho2|].
+    exists es1, b1, es2, b2. split; [exact Ho1|]. split; [exact Ho2|]. intros Hser1 Hser2.
     destruct (repair_exact_rd FNMAX CACHE HFN HCACHE T_START T_CONTENT T_EOA T_EOF Htags H H_len
-                _ _ I1 HR1 bl (trailer ++ junk plain) Hwf Htr (Hcut u1 n) es1 HI1 fuel1 (Hfu u1 n fuel1 Hf1))
+                _ _ I1 HR1 bl (trailer ++ junk plain) Hwf Htr (Hcut u1 n) es1 HI1 fuel1 (Hfu u1 n fuel1 Hf1) Hser1)
       as (out1 & obl1 & Hr1 & Hg1 & Hsame1).
     destruct (repair_exact_rd FNMAX CACHE HFN HCACHE T_START T_CONTENT T_EOA T_EOF Htags H H_len
-                _ _ I2 HR2 bl (trailer ++ junk plain) Hwf Htr (Hcut u2 m) es2 HI2 fuel2 (Hfu u2 m fuel2 Hf2))
+                _ _ I2 HR2 bl (trailer ++ junk plain) Hwf Htr (Hcut u2 m) es2 HI2 fuel2 (Hfu u2 m fuel2 Hf2) Hser2)
       as (out2 & obl2 & Hr2 & Hg2 & Hsame2).
     eexists _, _, out1, obl1, _, _, out2, obl2.
     split; [exact Hr1|]. split; [exact Hg1|]. split; [exact Hr2|]. split; [exact Hg2|].
